@@ -64,6 +64,7 @@ def gen(rng, tier, n_quick=60, n_thorough=1500):
     for k in range(16 if tier == "quick" else 60):
         c = core.case_from_struct(many, Weight=False, Solve=True, Assemble=True, Error="1e-3")
         c["NoStage"] = True
+        c["Rep"] = k
         cases.append(c)
     for i in range(2 if tier == "quick" else 20):
         cases.append(core.case_from_struct(G.gen_pin_first_joint(rng), Weight=False, Solve=True, Assemble=True, Error="1e-7", ViaPre=False))
